@@ -215,12 +215,14 @@ Fixpoint find_leaf (ls : list leafrec) (k : leafkind) (a v : N) (idx : bool) : o
   end.
 Definition orc_of (ls : list leafrec) : leafkind -> N -> N -> slope -> idl :=
   fun k a v s => match find_leaf ls k a v (is_some s) with Some r => lr_idl r | None => AllIds end.
-(* leaf truth for entry `id`; slope does not matter for meaning *)
+(* leaf truth for entry `id`: the first record for (kind, attr, value); the slope does not matter for meaning *)
+Fixpoint find_key (ls : list leafrec) (k : leafkind) (a v : N) : option leafrec :=
+  match ls with
+  | [] => None
+  | r :: t => if leafkind_eqb (lr_k r) k && (lr_a r =? a) && (lr_v r =? v) then Some r else find_key t k a v
+  end.
 Definition sem_of (ls : list leafrec) (id : N) : leafsem :=
-  fun k a v => match find_leaf ls k a v true with
-               | Some r => mem id (lr_true r)
-               | None => match find_leaf ls k a v false with Some r => mem id (lr_true r) | None => false end
-               end.
+  fun k a v => match find_key ls k a v with Some r => mem id (lr_true r) | None => false end.
 
 Inductive case :=
 (* backend level: one resolved filter tree under one index layout *)
@@ -248,20 +250,24 @@ Definition agree (c : case) : bool :=
       match isr with SErr => true | SOk r => set_eqb (ref_result univ ls f) r end
   end.
 
-(* recorded leaf data is sound: Indexed = exactly the matching ids, Partial = a superset *)
-Definition leaf_ok (univ : list N) (r : leafrec) : bool :=
-  match lr_idl r with
-  | AllIds => true
-  | Indexed s => set_eqb (filter (fun x => mem x s) univ) (filter (fun x => mem x (lr_true r)) univ)
-  | Partial s | PartialThreshold s => forallb (fun x => mem x s) (filter (fun x => mem x (lr_true r)) univ)
-  end.
+(* recorded leaf data is sound w.r.t. the recorded leaf truth: Indexed = exactly the matching
+   stored ids, Partial = a superset. (Two records for one (kind, attr, value) with different index
+   flags are both judged against the same truth, the one `sem_of` uses.) *)
+Definition leaf_ok (univ : list N) (ls : list leafrec) (r : leafrec) : bool :=
+  let t := fun x => sem_of ls x (lr_k r) (lr_a r) (lr_v r) in
+  set_eqb (filter (fun x => mem x (lr_true r)) univ) (filter t univ)     (* duplicates agree on truth *)
+  && match lr_idl r with
+     | AllIds => true
+     | Indexed s => forallb (fun x => Bool.eqb (mem x s) (t x)) univ
+     | Partial s | PartialThreshold s => forallb (fun x => implb (t x) (mem x s)) univ
+     end.
 
 (* the property on the implementation's answers: explicit error, or exactly the entries that
    satisfy the filter under the reference boolean semantics *)
 Definition pcheck (c : case) : bool :=
   match c with
   | CBe univ ls f thres lim ii isr ier itrue =>
-      forallb (leaf_ok univ) ls
+      forallb (leaf_ok univ ls) ls && user_filter f
       && match isr with SErr => true | SOk r => set_eqb r (ref_result univ ls f) end
       && match ier with EErr => true | EOk b => Bool.eqb b (negb (isnil (ref_result univ ls f))) end
   | CSrv univ ls f isr =>
